@@ -17,6 +17,7 @@ macro_rules! prop {
     };
 }
 prop!("c00", c00, gen_c00, "gen/c00.rs");
+prop!("c08", c08, gen_c08, "gen/c08.rs");
 prop!("c11", c11, gen_c11, "gen/c11.rs");
 prop!("c12", c12, gen_c12, "gen/c12.rs");
 prop!("c20", c20, gen_c20, "gen/c20.rs");
@@ -24,6 +25,10 @@ prop!("c20", c20, gen_c20, "gen/c20.rs");
 /// harness table for the replay binary
 pub fn tables() -> Vec<&'static [(&'static str, fn())]> {
     let mut v: Vec<&'static [(&'static str, fn())]> = Vec::new();
+    #[cfg(feature = "c00")]
+    v.push(gen_c00::TABLE);
+    #[cfg(feature = "c08")]
+    v.push(gen_c08::TABLE);
     #[cfg(feature = "c11")]
     v.push(gen_c11::TABLE);
     #[cfg(feature = "c12")]
